@@ -45,7 +45,7 @@ func main() {
 	f := hx.ParseFlags()
 	o := hx.NewOut(f.Out)
 	defer o.Close()
-	n := f.N(170, 6000)
+	n := f.N(170, 3500)
 	for k := 0; k < n; k++ {
 		if !f.Want(k) {
 			continue
